@@ -331,7 +331,10 @@ func (w *World) burstInto(f *Node) bool {
 	lh, ctx := f.lh, f.ctx
 	for i := 0; i < 1100 && w.viol == nil; i++ {
 		done := make(chan struct{})
-		go func() { lh.HandleConsensusMessage(ctx, src.raw); close(done) }()
+		go func() {
+			w.guardAPI("HandleConsensusMessage", func() { lh.HandleConsensusMessage(ctx, src.raw) })
+			close(done)
+		}()
 		simWait()
 		select {
 		case <-done:
@@ -480,7 +483,7 @@ func (w *World) cancelFocus(f *Node) {
 		for i := 0; i < nInflight; i++ {
 			i := i
 			go func() {
-				lh.HandleConsensusMessage(ctx, &interfaces.ConsensusRawMessage{Content: []byte{9, 9, byte(i)}})
+				w.guardAPI("HandleConsensusMessage", func() { lh.HandleConsensusMessage(ctx, &interfaces.ConsensusRawMessage{Content: []byte{9, 9, byte(i)}}) })
 				inflight <- i
 			}()
 		}
@@ -598,8 +601,14 @@ func (w *World) cancelFocus(f *Node) {
 	// API calls with the cancelled context return promptly
 	ret := make(chan int, 2)
 	ctx := f.ctx
-	go func() { lh.HandleConsensusMessage(ctx, &interfaces.ConsensusRawMessage{Content: []byte{1, 2, 3}}); ret <- 1 }()
-	go func() { _ = lh.UpdateState(ctx, nil, nil); ret <- 2 }()
+	go func() {
+		w.guardAPI("HandleConsensusMessage", func() { lh.HandleConsensusMessage(ctx, &interfaces.ConsensusRawMessage{Content: []byte{1, 2, 3}}) })
+		ret <- 1
+	}()
+	go func() {
+		w.guardAPI("UpdateState", func() { _ = lh.UpdateState(ctx, nil, nil) })
+		ret <- 2
+	}()
 	simWait()
 	if len(ret) != 2 {
 		w.violate("C16", "api-blocks-after-cancel", "HandleConsensusMessage / UpdateState called with the cancelled context did not return (%d of 2 returned)", len(ret))
